@@ -69,6 +69,10 @@ type Config struct {
 	TimerFirstWindow int64
 	// Demote adds the deviation "demote the running thread" (see schedule).
 	Demote bool
+	// StartPoints makes the first instruction of every spawned thread a scheduling point of that
+	// thread, so that a goroutine whose body has no synchronisation before its effect (compute,
+	// then publish) can be demoted before it computes.
+	StartPoints bool
 	// DemoteSleep > 0 adds a second variant of that deviation: the demoted thread stands still for
 	// this much virtual time as well, i.e. timers due within it fire before the thread runs even
 	// when nothing else can run (a thread that is late by some hundred milliseconds: page fault,
@@ -679,6 +683,10 @@ func GoNamed(name, group string, f func()) *Thread {
 		name = fmt.Sprintf("%s/g%d", group, len(x.threads))
 	}
 	t := x.newThread(name, group)
+	if x.cfg.StartPoints {
+		g := f
+		f = func() { Point("start"); g() }
+	}
 	x.startThread(t, f)
 	x.yield(nil, "go")
 	return t
